@@ -14,7 +14,7 @@ STATIC = {
 PROPS = {
     "C01": dict(
         title="Civil calendar facts are exactly the proleptic Gregorian calendar",
-        verus=["itime", ("itime", "_static", STATIC), "kspec", "civiladd", "isoweek"],
+        verus=["itime", ("itime", "_static", STATIC), "kspec", "civiladd", "isoweek", "civilwith"],
         kani_quick=["c01_civil", "c01_isoweek"],
         kani_thorough=[],
         design_ref="DESIGN.md section 4, C01",
@@ -78,7 +78,7 @@ PROPS = {
     ),
     "C05": dict(
         title="Fallible operations return errors: no panics, no out-of-range results",
-        verus=["posix", "tzif", "rounders", "sdur", "zoned", "span", "civiladd", "civildiff", "ambig", "isoweek", "spanround", "zonedround", "tsarith", "offround", "dtdiff", "zoneddiff", "tzdispatch"],
+        verus=["posix", "tzif", "rounders", "sdur", "zoned", "span", "civiladd", "civildiff", "ambig", "isoweek", "spanround", "zonedround", "tsarith", "offround", "dtdiff", "zoneddiff", "tzdispatch", "civilarith", "civilwith"],
         all_fns=True,
         kani_quick=["c01_civil", "c02_wrappers"],
         kani_thorough=["c10_model"],
@@ -95,7 +95,7 @@ PROPS = {
     ),
     "C08": dict(
         title="Civil date/time arithmetic follows the documented calendar rules",
-        verus=["civiladd"],
+        verus=["civiladd", "civilarith"],
         kani_quick=[], kani_thorough=["c10_model"],
         design_ref="DESIGN.md section 4, C08",
     ),
